@@ -222,6 +222,10 @@ pub fn drive(tier: &str) -> i32 {
         vcore::slots::block_skeletons(if quick { 1 } else { 2 }).into_iter().map(|b| format!("X = 0\n{}PRINT \"end\"\n", b)).collect(),
     ));
     groups.push((
+        "several block statements on one source line (sequential and nested)".into(),
+        vcore::slots::one_line_programs(),
+    ));
+    groups.push((
         "harvested texts (accepted ones are run; x stdin menu when they read the console)".into(),
         h.texts
             .iter()
